@@ -38,6 +38,10 @@ def configs(tier):
             out.append(dict(term="obs", kind=kind, B=B, obs_eq=False, n_out=3, sl=(-1, None), w="scalar", H=H, slice_solution=(0, 2)))
             out.append(dict(term="obs", kind=kind, B=B, obs_eq=True, n_out=3, sl=(-2, -1), w="scalar", H=H, slice_solution=(0, 2)))
     for kind in ("ode", "statio", "nonstatio"):
+        for B in ((2,) if tier == "quick" else (2, 3)):
+            # the batch carries BOTH a parameter batch (on kappa) and an observed equation parameter (theta): row i uses row i of each
+            out.append(dict(term="obs", kind=kind, B=B, obs_eq=True, pbd=True, n_out=1, sl=None, w="scalar", H=H))
+    for kind in ("ode", "statio", "nonstatio"):
         for B in (1, 2, 3):
             for obs_eq in (False, True):
                 for (n_out, sl, w) in ((1, None, "scalar"), (2, None, "vector"), (2, (0, 1), "scalar"), (2, (1, 2), "scalar")):
@@ -54,6 +58,7 @@ def run(cfg, R):
     term = cfg["term"]; H = cfg["H"]
     half = const(Fraction(1, 2), "Real")
     ot_theta = lambda i, o, p: o * p.eq_params["theta"]          # the network output depends on theta
+    ot_theta_kappa = lambda i, o, p: o * p.eq_params["theta"] + p.eq_params["kappa"]
     f = lambda loss, params, batch: loss.evaluate(params, batch)
 
     if term == "ic_ode":
@@ -149,8 +154,8 @@ def run(cfg, R):
         d = {"ode": 0, "statio": 2, "nonstatio": 1}[kind]
         d_in = {"ode": 1, "statio": 2, "nonstatio": 2}[kind]
         eq_type = {"ode": "ODE", "statio": "statio_PDE", "nonstatio": "nonstatio_PDE"}[kind]
-        ss = cfg.get("slice_solution")
-        u = mk_pinn(d_in, n_out, eq_type, deg=2, H=H, ot=ot_theta, slice_solution=(jnp.s_[ss[0]:ss[1]] if ss else None))
+        ss = cfg.get("slice_solution"); pbd = cfg.get("pbd", False)
+        u = mk_pinn(d_in, n_out, eq_type, deg=2, H=H, ot=(ot_theta_kappa if pbd else ot_theta), slice_solution=(jnp.s_[ss[0]:ss[1]] if ss else None))
         params = Params(nn_params=u.init_params(), eq_params={"theta": jnp.array(0.3), "kappa": jnp.array(1.1)})
         sol = list(range(n_out))[slice(*ss)] if ss else list(range(n_out))          # components that are the solution
         comps = sol if sl is None else sol[slice(sl[0], sl[1])]                        # observed ones among them
@@ -159,16 +164,17 @@ def run(cfg, R):
         obs = {"pinn_in": jnp.arange(1, B * d_in + 1).reshape(B, d_in) * 0.125, "val": jnp.arange(1, B * k + 1).reshape(B, k) * 0.25,
                "eq_params": ({"theta": jnp.arange(1, B + 1).reshape(B, 1) * 0.5} if obs_eq else {})}
         kw = dict(obs_slice=jnp.s_[sl[0]:sl[1]]) if sl is not None else {}
+        pb = {"kappa": jnp.arange(1, B + 1).reshape(B, 1) * 0.7} if pbd else None
         if kind == "ode":
             loss = LossODE(u=u, dynamic_loss=None, loss_weights=LossWeightsODE(observations=w0), params=params, **kw)
-            batch = ODEBatch(temporal_batch=jnp.array([0.5]), obs_batch_dict=obs)
+            batch = ODEBatch(temporal_batch=jnp.array([0.5] * (B if pbd else 1)), obs_batch_dict=obs, param_batch_dict=pb)
         elif kind == "statio":
             loss = LossPDEStatio(u=u, dynamic_loss=None, loss_weights=LossWeightsPDEStatio(observations=w0), params=params, **kw)
-            batch = PDEStatioBatch(inside_batch=jnp.ones((1, 2)) * 0.4, border_batch=None, obs_batch_dict=obs)
+            batch = PDEStatioBatch(inside_batch=jnp.ones((B if pbd else 1, 2)) * 0.4, border_batch=None, obs_batch_dict=obs, param_batch_dict=pb)
         else:
             loss = LossPDENonStatio(u=u, dynamic_loss=None, loss_weights=LossWeightsPDENonStatio(observations=w0), params=params, **kw)
-            batch = PDENonStatioBatch(times_x_inside_batch=jnp.ones((1, 2)) * 0.4, times_x_border_batch=None, obs_batch_dict=obs)
-        name = f"obs/{kind}/B{B}/{'obs-theta' if obs_eq else 'no-obs-param'}/out{n_out}/sl{sl}/{wk}" + (f"/sol{ss}" if ss else "")
+            batch = PDENonStatioBatch(times_x_inside_batch=jnp.ones((B if pbd else 1, 2)) * 0.4, times_x_border_batch=None, obs_batch_dict=obs, param_batch_dict=pb)
+        name = f"obs/{kind}/B{B}/{'obs-theta' if obs_eq else 'no-obs-param'}/out{n_out}/sl{sl}/{wk}" + (f"/sol{ss}" if ss else "") + ("/with-param-batch" if pbd else "")
         R.note(functions=["jinns.loss._loss_utils.observations_loss_apply[PINN]", "jinns.parameters._params._update_eq_params_dict", "_get_vmap_in_axes_params",
                           "jinns.loss.%s.evaluate" % {"ode": "LossODE", "statio": "LossPDEStatio", "nonstatio": "LossPDENonStatio"}[kind]])
         def oracle(A, variant=None):
@@ -182,14 +188,15 @@ def run(cfg, R):
                     th = ob["eq_params"]["theta"][i if variant != "row0" else 0, 0]
                 else:
                     th = p.eq_params["theta"][()]
-                rows.append(tm.ssum([mul(w[j] if w.ndim else w[()], sq(sub(mul(D(p.nn_params, z, None, c), th), ob["val"][i, j if variant != "valrev" else k - 1 - j])))
+                kap = b_.param_batch_dict["kappa"][i if variant != "kappa_row0" else 0, 0] if pbd else const(0, "Real")
+                rows.append(tm.ssum([mul(w[j] if w.ndim else w[()], sq(sub(add(mul(D(p.nn_params, z, None, c), th), kap), ob["val"][i, j if variant != "valrev" else k - 1 - j])))
                                      for j, c in enumerate(comps)]))
             return mean(rows)
-        tname = "observations"; variants = (["row0"] if (obs_eq and B > 1) else []) + (["valrev"] if k > 1 else [])
+        tname = "observations"; variants = (["row0"] if (obs_eq and B > 1) else []) + (["valrev"] if k > 1 else []) + (["kappa_row0"] if pbd else [])
     else:
         raise ValueError(term)
 
-    key = f"{term}" + (f":{cfg['kind']}" if term == "obs" else "") + (":observed-eq-param" if cfg.get("obs_eq") else "")
+    key = f"{term}" + (f":{cfg['kind']}" if term == "obs" else "") + (":observed-eq-param" if cfg.get("obs_eq") else "") + (":with-param-batch" if cfg.get("pbd") else "")
     tr = R.trace(name, f, (loss, params, batch), key=key + ":raises")
     if tr is None: return
 
